@@ -1,0 +1,10 @@
+//go:build verif
+
+// Contracts for package parse (comment-only file; no code).
+
+package parse
+
+// Parsing reads its input and allocates the syntax tree; it does not write state of its callers.
+//@ func Unit(r)
+//@   trusted
+//@   modifies nothing
